@@ -36,7 +36,9 @@ RULE = ("random data D (Atom | List | Map | Seq | Absent; nesting depth <= 5, co
         "a forbidden final delimiter in the reject stream); the characters at which str.splitlines() breaks a line but which do "
         "not end a line of the tokenizer (FF, VT, FS/GS/RS, NEL, U+2028, U+2029, a lone CR) occur INSIDE the // comments "
         "(followed by text that would be items, delimiters or brackets if the comment ended there), inside /* */ comments, "
-        "inside quoted items and keys, and between tokens; every text is parsed with and without the default cleanup; plus "
+        "inside quoted items and keys, and between tokens; bracket-less delimited lists of nullable items whose text is made of "
+        "delimiters only (2-5 items, all empty) at top level and as rows of lists / values of maps at every depth (round 5); "
+        "every text is parsed with and without the default cleanup; plus "
         "every combination of constructor arguments of the three templates (productions only); plus histories (kind "
         "'hist'): ONE parser object of a random grammar of the family on which 5-12 calls are made one after another - "
         "the main text parsed at the beginning, in the middle and at the end (with parse(), parse(do_cleanup=False) + "
@@ -604,6 +606,7 @@ class Deriver:
         self.reject = reject          # plant one forbidden final delimiter
         self.planted = False
         self.budget = 160             # tokens
+        self.only_delims = 0.0        # round 5: share of the bracket-less delimited lists of nullable items made of 2+ EMPTY items
 
     def nd(self, s):
         return self.need.get(s, 0)
@@ -693,6 +696,10 @@ class Deriver:
             if not has_br and n == 0:
                 n, items, toks_items = 1, [self.empty_of(sp["item"])], [[]]
             item_nullable = False
+        if self.only_delims and not has_br and has_d and item_nullable and rng.random() < self.only_delims:
+            # the text of the list is made of delimiters only: every delimiter separates two (empty) items
+            n = rng.choice([2, 2, 3, 3, 4, 5])
+            items, toks_items = [ABSENT] * n, [[] for _ in range(n)]
         final = False
         if n >= 1 and has_br and has_d and not item_cont:
             if afd:
@@ -847,11 +854,12 @@ def render(rng, toks, messy):
     return "".join(out) + tail
 
 
-def make_case(rng, g, reject=False, max_depth=None, max_len=6, toks_out=None):
+def make_case(rng, g, reject=False, max_depth=None, max_len=6, toks_out=None, only_delims=0.0):
     """toks_out: a list that receives the tokens of the text (for texts cut at a token boundary)"""
     max_depth = max_depth or rng.choice([1, 2, 2, 3, 3, 4, 5])
     for _ in range(30):
         dv = Deriver(rng, g, max_depth, max_len, reject=reject)
+        dv.only_delims = only_delims
         try:
             d, toks = dv.derive(g["start"], max_depth)
         except (ValueError, IndexError):
@@ -927,7 +935,42 @@ def gen_cases(rng, tier):
     for c in cases:
         if "g" in c:
             c["g"].pop("_p", None)
-    return cases + hist_cases(rng, tier)
+    return cases + hist_cases(rng, tier) + delims_only_cases(rng, tier)
+
+
+# ---- round 5: bracket-less delimited lists of nullable items whose text is made of delimiters only ----------------
+def delims_only_cases(rng, tier):
+    """drawn after all older cases (their random stream stays what it was).  `| |` denotes three empty items, the empty
+    text no item: at top level (the forced `blist` grammars with a nullable item symbol) and nested (rows `a, , b` /
+    `, ,` of a bracketed list, of a map, of a bracket-less top list; the rows reach containers at every depth)"""
+    out = []
+    n = 60 if tier == "thorough" else 10
+    for i in range(n):
+        for combo in ((False, True, None, None), (False, True, False, None)):
+            g = declare_order(rng, gen_grammar(rng, {"top": "blist", "kind": "nullable", "combo": combo}))
+            for p in (1.0, 0.6):
+                c = make_case(rng, g, only_delims=p)
+                if c:
+                    out.append(c)
+    for i in range(n):
+        for top in ("list", "map", "blist", "value"):
+            g = gen_grammar_direct(rng, {"row": "blist", "top": top})
+            _index(g)
+            row, val = g["_p"].get("ROW"), g["_p"].get("VALUE")
+            if not row or not val or row["item"] != "VALUE" or [] in val["alts"]:
+                continue
+            val["alts"].insert(rng.randint(0, len(val["alts"])), [])
+            lst = g["_p"].get("LIST")
+            if lst and lst["item"] == "VALUE" and lst["delim"] is None:
+                continue
+            g = declare_order(rng, prune(g))
+            for p in (1.0, 0.5):
+                c = make_case(rng, g, only_delims=p)
+                if c:
+                    out.append(c)
+    for c in out:
+        c["g"].pop("_p", None)
+    return out
 
 
 # ---- histories: one parser object, several calls ---------------------------------------------------------------
